@@ -43,7 +43,7 @@ func (a Addr) MarshalText() ([]byte, error) {
 	return buf.Bytes(), nil
 }
 
-var addrRe = regexp.MustCompile(`^([A-z0-9\-_/:]+)@(.+):([0-9]+)$`)
+var addrRe = regexp.MustCompile(`^([A-z0-9+\-_/:]+)@(.+):([0-9]+)$`)
 
 func ParseAddr(data []byte) (Addr, error) {
 	a := Addr{}
